@@ -124,13 +124,60 @@ def returned_value_form(fn: ast.AST, type_aliases: Dict[str, str]) -> Optional[s
     ren = {fn.name: "F"}
     for i, a in enumerate(fn.args.args):
         ren[a.arg] = f"p{i}"
+    local = {n.id for n in ast.walk(e) if isinstance(n, ast.Name) and isinstance(n.ctx, ast.Store)} | set(ren)
+    for n in ast.walk(e):
+        if isinstance(n, ast.Name) and n.id not in local:
+            n.id = type_aliases.get(n.id, n.id)
+    # arms of mutually exclusive tests in one order - before the comprehension variables are numbered, which goes by position
+    e = _ExclusiveArms(local).visit(e)
     for n in ast.walk(e):
         if isinstance(n, ast.Name) and isinstance(n.ctx, ast.Store) and n.id not in ren:
             ren[n.id] = f"v{len(ren)}"
     for n in ast.walk(e):
         if isinstance(n, ast.Name):
-            n.id = ren.get(n.id, type_aliases.get(n.id, n.id))
+            n.id = ren.get(n.id, n.id)
     return ast.dump(e, include_attributes=False)
+
+
+# builtin classes no object can be an instance of two of (their instance layouts conflict, so no class derives from two
+# of them; bool is left out because it derives from int)
+_UNRELATED_BUILTINS = {"dict", "list", "str", "tuple", "set", "frozenset", "bytes", "bytearray", "int", "float", "complex"}
+
+
+class _ExclusiveArms(ast.NodeTransformer):
+    """`a if t1 else b if t2 else c if t3 else d` with t1..tn = isinstance(<the same plain name>, <builtin classes>) over
+    pairwise unrelated builtins: at most one test holds and the tests have no effect, so the order of the arms is
+    immaterial - the arms are put into the order of their class names."""
+
+    def __init__(self, bound: Set[str]):
+        self.bound = bound  # canonical names of parameters / locals: a class name among them is not the builtin
+
+    def _classes(self, t: ast.AST) -> Optional[Tuple[str, Tuple[str, ...]]]:
+        if not (isinstance(t, ast.Call) and isinstance(t.func, ast.Name) and t.func.id == "isinstance" and len(t.args) == 2 and not t.keywords and isinstance(t.args[0], ast.Name)):
+            return None
+        ts = t.args[1].elts if isinstance(t.args[1], ast.Tuple) else [t.args[1]]
+        if not ts or not all(isinstance(x, ast.Name) and x.id in _UNRELATED_BUILTINS and x.id not in self.bound for x in ts):
+            return None
+        return t.args[0].id, tuple(sorted(x.id for x in ts))
+
+    def visit_IfExp(self, n: ast.IfExp):
+        arms: List[Tuple[Tuple[str, ...], ast.AST, ast.AST]] = []
+        subject: Optional[str] = None
+        x: ast.AST = n
+        while isinstance(x, ast.IfExp):
+            c = self._classes(x.test)
+            if c is None or (subject is not None and c[0] != subject):
+                break
+            subject = c[0]
+            arms.append((c[1], x.test, x.body))
+            x = x.orelse
+        used = [k for a in arms for k in a[0]]
+        if len(arms) < 2 or len(used) != len(set(used)):
+            return self.generic_visit(n)
+        out: ast.AST = self.visit(x)
+        for _k, test, body in sorted(arms, key=lambda a: a[0], reverse=True):
+            out = ast.IfExp(test=test, body=self.visit(body), orelse=out)
+        return out
 
 
 # ---------------------------------------------------------------------------------------------------------
@@ -419,6 +466,34 @@ def _is_method(fn: ast.AST) -> bool:
     return isinstance(_parent(getattr(fn, "_normal_of", fn)), ast.ClassDef) and not any(dotted_name(d) in ("staticmethod", "classmethod") for d in fn.decorator_list)
 
 
+def _arg_at(repo: Repo, mod, call: ast.Call, index: int) -> Optional[ast.AST]:
+    """The argument *call* binds to the *index*-th parameter (receiver / new instance not counted) of the package
+    function it invokes - whether it is passed by position or by keyword.  The callee is resolved (by name across the
+    package when the receiver's class is not known statically) and has to agree on the parameter's name."""
+    if any(isinstance(a, ast.Starred) for a in call.args) or any(k.arg is None for k in call.keywords):
+        return None
+    if len(call.args) > index:
+        return call.args[index]
+    if not call.keywords:
+        return None
+    try:
+        targets = [f for _m, f in repo.resolve_call(mod, call) if isinstance(f, FuncNode)]
+    except Exception:
+        targets = []
+    if not targets and isinstance(call.func, ast.Attribute):
+        targets = [f for _m, f in repo.resolve_call_by_name(call) if isinstance(f, FuncNode)]
+    names: Set[Optional[str]] = set()
+    for f in targets:
+        pos = list(f.args.posonlyargs + f.args.args)
+        in_class = isinstance(_parent(getattr(f, "_normal_of", f)), ast.ClassDef)
+        if in_class and not any(dotted_name(d) == "staticmethod" for d in f.decorator_list):
+            pos = pos[1:]
+        names.add(pos[index].arg if index < len(pos) and pos[index] not in f.args.posonlyargs else None)
+    if len(names) != 1 or None in names:
+        return None
+    return kwarg(call, next(iter(names)))
+
+
 def _callee_on(repo: Repo, mod, call: ast.Call, is_obj: Callable[[ast.AST], bool], cls) -> Optional[Tuple[object, ast.AST, str, Dict[str, ast.AST]]]:
     """The repo function *call* runs on the object recognised by *is_obj* - as the receiver of a method of *cls*
     (module, ClassDef) or as an argument of a resolvable function: (module, def, parameter holding the object,
@@ -696,13 +771,14 @@ def spec_id_rules(repo: Repo, R: Report, run_nf: ast.AST) -> None:
     if len(comp_calls) != 1:
         raise AnalysisError(f"_run: expected one RunSpaceIdentityService().compute call, found {len(comp_calls)}")
     cc = comp_calls[0]
-    cli_arg = cc.args[0] if cc.args else kwarg(cc, "run_space_spec")
+    cli_arg = _arg_at(repo, repo.module(CLI), cc, 0) or kwarg(cc, "run_space_spec")
     vals = _origins(run_nf, cli_arg)
     hashed = [v.args[0] for v in vals if isinstance(v, ast.Call) and call_attr(v) == "asdict" and len(v.args) == 1]
-    plan_calls = [c for c in calls_in(run_nf) if call_attr(c) == "expand_run_space" and c.args]
+    cli_mod = repo.module(CLI)
+    plan_calls = [(c, a) for c in calls_in(run_nf) if call_attr(c) == "expand_run_space" for a in [_arg_at(repo, cli_mod, c, 0)] if a is not None]  # the specification: first parameter, by position or keyword
     if len(plan_calls) != 1:
         raise AnalysisError(f"_run: expected one expand_run_space call, found {len(plan_calls)}")
-    planned_from = _origins(run_nf, plan_calls[0].args[0])
+    planned_from = _origins(run_nf, plan_calls[0][1])
     parsed = lambda e: isinstance(e, ast.Attribute) and e.attr == "run_space" and any(isinstance(v, ast.Call) and call_attr(v) == "parse_pipeline_config" for v in _origins(run_nf, e.value))
     cli_parsed = bool(vals) and len(hashed) == len(vals) and all(parsed(h) for hs in hashed for h in _origins(run_nf, hs)) and len(planned_from) == 1 and all(_same(h, planned_from[0]) for hs in hashed for h in _origins(run_nf, hs))
     R.check(cli_parsed, r_sid, CLI, "_run", "identity_service.compute(asdict(pipeline_cfg.run_space))", "the CLI does not hash asdict(parsed run space) of the very block it expands into the plan", cc.lineno)
@@ -3051,8 +3127,9 @@ def _lifecycle_file_identity(repo: Repo, R: Report, r_lf: str, r_ma: str, mod, c
 def freshness_rules(repo: Repo, R: Report, run_nf: ast.AST, g: CFG, loop: ast.For, proc, launch_names) -> None:
     launch, is_launch_attr = launch_names
     r_fr = R.rule("C09-D3-per-run-freshness", "each run starts from a context built inside the loop body from the shared --context mapping plus that run's values (nothing carried between iterations); run metadata carries a copy of that very context, the 0-based index and the launch FK; execute forwards them to pipeline_start", 8)
-    pay = next((c for c in calls_in(loop) if call_attr(c) == "ContextType" and c.args), None)
-    ctx_name = dotted_name(pay.args[0]) if pay is not None else None
+    cli_mod = repo.module(CLI)
+    pay = next((a for c in calls_in(loop) if call_attr(c) == "ContextType" for a in [_arg_at(repo, cli_mod, c, 0)] if a is not None), None)  # the mapping: first parameter, by position or keyword
+    ctx_name = dotted_name(pay) if pay is not None else None
     if ctx_name is None:
         raise AnalysisError("_run: initial payload `ContextType(<per-run mapping>)` not found in the run loop")
     defs_in_loop = [n for n in ast.walk(loop) if isinstance(n, (ast.Assign, ast.AnnAssign)) and n.value is not None and any(isinstance(t, ast.Name) and t.id == ctx_name for t in (n.targets if isinstance(n, ast.Assign) else [n.target]))]
@@ -3117,8 +3194,9 @@ def freshness_rules(repo: Repo, R: Report, run_nf: ast.AST, g: CFG, loop: ast.Fo
         if n.kind != "stmt" or n.ast is None:
             return False
         for c in calls_in(n.ast):
-            if call_attr(c) == "set_run_metadata" and c.args:
-                if any((isinstance(x, ast.Name) and x.id in md_names) or any(x is d for d in md) for x in ast.walk(c.args[0])):
+            staged = _arg_at(repo, cli_mod, c, 0) if call_attr(c) == "set_run_metadata" else None  # by position or keyword
+            if staged is not None:
+                if any((isinstance(x, ast.Name) and x.id in md_names) or any(x is d for d in md) for x in ast.walk(staged)):
                     return True
         return False
     body_starts = [t for h in heads for t, lab in g.succ[h] if lab == "T"]
@@ -3832,7 +3910,11 @@ def launch_id_rules(repo: Repo, R: Report) -> None:
     # a size / hashlib.file_digest)
     fed = [c for c in calls_in(sf, include_nested=True) if call_attr(c) == "update" or (call_name(c) or "").startswith("hashlib.sha256")]
     whole_reads = [c for c in calls_in(sf, include_nested=True) if call_attr(c) == "read_bytes" or (call_attr(c) == "read" and not c.args and not c.keywords)]
-    sized_reads = [c for c in calls_in(sf, include_nested=True) if call_attr(c) == "read" and (c.args or c.keywords)]
+    # a read of a limited size: `h.read(n)` - also spelled as the bound callable `functools.partial(h.read, n)` that
+    # `iter(.., sentinel)` calls once per chunk
+    def _partial_read(c: ast.Call) -> bool:
+        return call_attr(c) == "partial" and bool(c.args) and isinstance(c.args[0], ast.Attribute) and c.args[0].attr == "read" and (len(c.args) > 1 or bool(c.keywords))
+    sized_reads = [c for c in calls_in(sf, include_nested=True) if (call_attr(c) == "read" and (c.args or c.keywords)) or _partial_read(c)]
     in_loop = lambda c: any(isinstance(a, (ast.For, ast.While)) for a in ancestors(c))
     chunked = bool(sized_reads) and any(call_attr(c) == "update" and in_loop(c) for c in fed) and not any(isinstance(n, (ast.Break, ast.Return)) and in_loop(n) for n in ast.walk(sf))
     at_once = bool(whole_reads) and not sized_reads and any(c.args for c in fed)
